@@ -91,7 +91,8 @@ def sequentialUnroll (c : Circuit) (n : Nat) (dPort qPort : Name) (ignore : List
     (if cs2.nodes.any (fun p => p.2.ty.isNone) then .error .keyError else pure ()) >>= fun _ =>
     let stateIns := insts.map (fun b => b ++ "_" ++ qPort)
     let cs3 := if removeUnloaded then
-        cs2.remove (cs2.inputs.filter (fun i => (cs2.fanout i).isEmpty && !stateIns.contains i))
+        -- an unloaded input that is itself an output stays (fix K34)
+        cs2.remove (cs2.inputs.filter (fun i => (cs2.fanout i).isEmpty && !stateIns.contains i && !cs2.isOut i))
       else cs2
     let stateIO := insts.map (fun b => (b ++ "_" ++ dPort, b ++ "_" ++ qPort))
     unroll cs3 n stateIO pfx ord >>= fun r =>
